@@ -105,7 +105,7 @@ fn main() {
         sections.push(Section {
             name: "int_result_signatures",
             explore: Box::new(|cx: &Cx| {
-                cx.rule("int_result_signatures", "for every trait of the grammar tier with a method marked to use integer results (method-level, trait-level, with a result alias, both levels in one trait): the C signature of that vtable entry, as the compiler names it, returns the i32 code (and the entry sits in its declaration slot)");
+                cx.rule("int_result_signatures", "for every trait of the grammar tier with a method marked to use integer results (method-level, trait-level, with a result alias, both levels in one trait): the C signature of that vtable entry, as the compiler names it, returns the i32 code (and the entry sits in its declaration slot); hand member xi drives the raw entries of a trait-level int_result trait with ONE output slot per payload kind (plain, with a destructor, wrapped associated-type object): Err on a poisoned slot, Ok, Err again - every byte of the slot must be as before after a failed call, the success value is owned by the caller and dropped exactly once");
                 for (idx, desc, f) in h_objects::all_raw_checks() {
                     if !(desc.contains("int_") || desc.contains("int_result")) {
                         continue;
